@@ -50,6 +50,11 @@ pub enum IntegDecl {
     /// the (correct) digest of ANOTHER value of the pool under the writer's algorithm — an
     /// address that may well exist in the cache
     DigestOfOtherBlob,
+    /// the correct digest with the LAST byte changed (everything before it is right)
+    WrongTail,
+    /// the correct digest's base64 text with the case of its first letter toggled (still
+    /// well-formed base64 of the right length, but other bytes)
+    CaseToggled,
 }
 
 /// Something another process does to the cache between a writer's last chunk and its commit.
@@ -111,6 +116,14 @@ pub struct WriteSpec {
     /// treats as the continuation of the cancelled write
     #[serde(default)]
     pub cancel_chunk: Option<u8>,
+    /// streamed writes only: before the commit every file in `<cache>/tmp` is back-dated by
+    /// this many hours (a writer that has been open for a long time) and another writer stores
+    /// the pool's next value by address on the same cache; the commit must succeed as usual
+    #[serde(default)]
+    pub aged_hours: u32,
+    /// options are set twice on the builder, a decoy value first (the last call wins)
+    #[serde(default)]
+    pub decoy_opts: bool,
 }
 
 impl WriteSpec {
@@ -131,6 +144,8 @@ impl WriteSpec {
             interfere: Interfere::None,
             vectored: 0,
             cancel_chunk: None,
+            aged_hours: 0,
+            decoy_opts: false,
         }
     }
     pub fn streamed(&self) -> bool {
@@ -223,6 +238,9 @@ pub enum BDamage {
     /// a CR is inserted before the n-th LF (the line before it becomes CRLF-terminated, which
     /// line readers strip: its record stays valid)
     CrBeforeLf(usize),
+    /// `total` bytes of garbage lines of `line` bytes each (invalid UTF-8 included) are
+    /// appended behind the records: a long damaged tail
+    GarbageTail { total: usize, line: usize, salt: u64 },
 }
 
 #[derive(Clone, Debug, Serialize, Deserialize, PartialEq)]
